@@ -880,7 +880,7 @@ class WaveSpectrum(DatasetWrapper):
         return xarray.DataArray(
             data=inverse_intrinsic_dispersion_relation(
                 self.radian_frequency[index].values, self.depth.values
-            ),
+            ).reshape(self.depth.shape),
             dims=self.dims_space_time,
             coords=coords,
         )
